@@ -2,6 +2,7 @@ package sym
 
 import (
 	"fmt"
+	"math"
 	"go/types"
 	"regexp/syntax"
 
@@ -17,6 +18,35 @@ func registerMiscModels(ex *Exec) {
 	m["internal/stringslite.Clone"] = ident
 	m["strings.Clone"] = ident
 	m["strconv.cloneString"] = ident
+	// floating point is uninterpreted (bit patterns + UFs); constants are folded natively
+	m["math.Pow"] = func(ex *Exec, s *State, cc *ssa.CallCommon, a []Value) (Value, *Fork, error) {
+		x, y := a[0].(*Term), a[1].(*Term)
+		if x.IsConst() && y.IsConst() {
+			return ex.Ctx.BV(64, math.Float64bits(math.Pow(math.Float64frombits(x.U), math.Float64frombits(y.U)))), nil, nil
+		}
+		if x.IsConst() && y.Op == OIte {
+			if r := ex.Ctx.LiftIte(y, func(leaf *Term) *Term {
+				return ex.Ctx.BV(64, math.Float64bits(math.Pow(math.Float64frombits(x.U), math.Float64frombits(leaf.U))))
+			}); r != nil {
+				return r, nil, nil
+			}
+		}
+		return ex.Ctx.App("math_Pow", SBV(64), x, y), nil, nil
+	}
+	m["math.Float64frombits"] = ident
+	m["math.Float64bits"] = ident
+	fl1 := func(name string, f func(float64) float64) ModelFn {
+		return func(ex *Exec, s *State, cc *ssa.CallCommon, a []Value) (Value, *Fork, error) {
+			x := a[0].(*Term)
+			if x.IsConst() {
+				return ex.Ctx.BV(64, math.Float64bits(f(math.Float64frombits(x.U)))), nil, nil
+			}
+			return ex.Ctx.App(name, SBV(64), x), nil, nil
+		}
+	}
+	m["math.Log"] = fl1("math_Log", math.Log)
+	m["math.Ceil"] = fl1("math_Ceil", math.Ceil)
+	m["math.Floor"] = fl1("math_Floor", math.Floor)
 	m["math/bits.Len"] = modelBitsLen(64)
 	m["math/bits.Len64"] = modelBitsLen(64)
 	m["math/bits.Len32"] = modelBitsLen(32)
